@@ -3,6 +3,22 @@
 import json, subprocess, collections
 
 CLAIMS = {
+ "C02": dict(
+   text="Static ownership and shape rules on go/ssa for the entity pool: who may write the pool and who may issue/recycle handles, the generation bump on every recycle path, the liveness comparison, the reserved slot 0 (seed, refusal, reset), exactly one pool call per row in the bulk loops, growth of the world index, whole-slice growth copies, whole-handle comparisons, and restoration of every pool field by the load path. Each is a necessary condition of 'never alive again, never shared' on every path.",
+   note="Does NOT decide the implicit free list's threading, counts, or uniqueness of handles over histories. Trusted: go/ssa, mod-set summaries.",
+   technique="static analysis: who-may-write/who-may-call rules, must-pass dataflow and shape rules on go/ssa",
+   ref="§2 C02"),
+ "C15": dict(
+   text="Static reset-coverage analysis: the run state of World and of each nested state struct is derived from the mod-sets of all non-constructor, non-reset functions, and World.Reset's transitive mod-set must cover it except for a short reasoned keep-list; plus guard-first for Reset, retire co-updates and zeroing in the node reset, cache bookkeeping, and full-range element-wise resets. A new mutable field that Reset forgets is reported without anyone writing a test for it.",
+   note="Does not decide behavioural equivalence with a fresh world. The keep-list (checker/rules_c15.go) is trusted and reasoned per field.",
+   technique="static analysis: mod-set (effect) summaries over the call graph, derived run-state vs reset-set comparison",
+   ref="§2 C15"),
+ "C17": dict(
+   text="Static field-coverage and provenance rules: every run-state field of the pool is read by the dump and written by the load, the load is guarded (lock, fresh-or-reset) before its first write, the JSON codec reads/writes every field with matching array positions on every success path, and the slices installed by load never alias the caller's dump.",
+   note="Does not decide identical future handle sequences. Trusted: go/ssa; the derived run-state set (as C15.R1).",
+   technique="static analysis: field coverage from mod-sets, dominance and slice-provenance rules on go/ssa",
+   ref="§2 C17"),
+
  "C03": dict(
    text="Static structural rules on go/ssa for the query machinery: all three iteration strategies are handled by every operation that branches on them, the batch table list is asserted only under the batch flag, all five pieces of code that answer 'which tables does this filter select' use a relation filter's target only for nodes/tables known to carry a relation and only after the node's activity and match tests, and batch ranges are produced from and consumed as [Len before, Len after) of the destination. Sibling-agreement and provenance rules of this kind hold for every filter and history, not for sampled ones.",
    note="Does NOT decide the index arithmetic of Next/Step/Count/EntityAt (off-by-one, agreement of positions) nor exactly-once visiting; those are the bulk of the property and are out of reach of a sound static argument here. Trusted: go/ssa, idiom recognisers for flag tests and comma-ok assertions.",
